@@ -66,22 +66,12 @@ Proof.
   split; apply H; repeat (rewrite in_app_iff); cbn [In]; auto 20.
 Qed.
 
-(** what "the identifier [ident] of a definition is mapped to original position [p] under name [nm]"
-    means on the buffers a [SourceWriter] run ends with *)
-Definition mapped_in (fmap : option (list N)) (st : sw) (ident : str) (p : pos) (nm : str) : Prop :=
-  exists es e pre post k,
-    decode_mappings (mbuf (sw_map st)) = Some (map seg_of_entry es) /\ In e es /\
-    c_buf (sw_cur st) = pre ++ post /\ end_pos pre = epos e /\ is_prefix (hd [] (split_on LF ident)) post = true /\
-    e_ol e = p_line p /\ e_oc e = p_col p /\ e_ni e = Some k /\
-    nth_error (nm_all (sw_names st)) (N.to_nat k) = Some nm /\
-    fmap_lookup fmap (p_file p) = Some (e_fi e).
-
 Lemma mapped_of_write_for : forall fmap ops st ident p nm,
   sw_run fmap (map conv_wop ops) = Some st -> In (P.WF ident p (Some nm)) ops -> P.pbuiltin p = false ->
   mapped_in fmap st ident (conv_pos p) nm.
 Proof.
   intros fmap ops st ident p nm H Hin Hb.
-  apply (named_write_for_mapped_lemma fmap (map conv_wop ops) st ident (conv_pos p) nm H); [|exact Hb].
+  apply (mapped_in_of_write_for fmap (map conv_wop ops) st ident (conv_pos p) nm H); [|exact Hb].
   change (WF ident (conv_pos p) (Some nm)) with (conv_wop (P.WF ident p (Some nm))). apply in_map. exact Hin.
 Qed.
 
